@@ -161,48 +161,52 @@ def block_ser(self: Obj(CBlock), f: Stream, include_witness: Bool):
 
 # ------------------------------------------------------------------ Serializable.serialize
 @contract('bitcoin.core.serialize:Serializable.serialize', name='tx_serialize', prop=P)
-def tx_serialize(self: Obj(OneOf(CTransaction, CMutableTransaction))):
+def tx_serialize(self: Obj(OneOf(CTransaction, CMutableTransaction))) -> Bytes:
     """T1 for transactions: serialize() is exactly the prescribed byte string"""
     requires(valid_tx(self))
-    option(auto_unfold=False)
+    option(auto_unfold=False, callable=True)
+    unfold(enc_tx(self, True))
     ensures(result == enc_tx(self, True))
+    ensures(result == enc_tx_parts(self, True))
 
 
 @contract('bitcoin.core.serialize:Serializable.serialize', name='tx_serialize_params', prop=P)
-def tx_serialize_params(self: Obj(OneOf(CTransaction, CMutableTransaction)), params: DictOf(include_witness=Bool)):
+def tx_serialize_params(self: Obj(OneOf(CTransaction, CMutableTransaction)), params: DictOf(include_witness=Bool)) -> Bytes:
     requires(valid_tx(self))
-    option(auto_unfold=False)
+    option(auto_unfold=False, callable=True)
     ensures(result == enc_tx(self, params['include_witness']))
 
 
 @contract('bitcoin.core.serialize:Serializable.serialize', name='header_serialize', prop=P)
-def header_serialize(self: Obj(CBlockHeader)):
+def header_serialize(self: Obj(CBlockHeader)) -> Bytes:
     requires(valid_header(self))
+    option(callable=True)
     ensures(result == enc_header(self) and len(result) == 80)
 
 
 @contract('bitcoin.core.serialize:Serializable.serialize', name='block_serialize', prop=P)
-def block_serialize(self: Obj(CBlock)):
+def block_serialize(self: Obj(CBlock)) -> Bytes:
     requires(valid_block(self))
-    option(auto_unfold=False)
+    option(auto_unfold=False, callable=True)
     ensures(result == enc_block(self, True))
 
 
 @contract('bitcoin.core.serialize:Serializable.serialize', name='outpoint_serialize', prop=P)
-def outpoint_serialize(self: Obj(OneOf(COutPoint, CMutableOutPoint))):
+def outpoint_serialize(self: Obj(OneOf(COutPoint, CMutableOutPoint))) -> Bytes:
     requires(valid_outpoint(self))
+    option(callable=True)
     ensures(result == enc_outpoint(self) and len(result) == 36)
 
 
 @contract('bitcoin.core.serialize:Serializable.serialize', name='txin_serialize', prop=P)
-def txin_serialize(self: Obj(OneOf(CTxIn, CMutableTxIn))):
+def txin_serialize(self: Obj(OneOf(CTxIn, CMutableTxIn))) -> Bytes:
     requires(valid_txin(self))
     unfold(enc_txin(self))
     ensures(result == enc_txin(self))
 
 
 @contract('bitcoin.core.serialize:Serializable.serialize', name='txout_serialize', prop=P)
-def txout_serialize(self: Obj(OneOf(CTxOut, CMutableTxOut))):
+def txout_serialize(self: Obj(OneOf(CTxOut, CMutableTxOut))) -> Bytes:
     requires(valid_txout(self))
     unfold(enc_txout(self))
     ensures(result == enc_txout(self))
